@@ -7,6 +7,8 @@ import OutrankModel.Drv.C16
 import OutrankModel.Drv.C18
 import OutrankModel.Drv.C05
 import OutrankModel.Drv.C13
+import OutrankModel.Drv.C12
+import OutrankModel.Drv.C17
 /-!
 Line-protocol driver (DESIGN §2.2): one request per line on stdin, one reply per line on stdout.
 Adds only parsing and printing around the definitions the theorems are about.  Each property contributes one
@@ -22,7 +24,9 @@ def handlers : List (String × Handler) := [
   ("C16", C16Drv.drv),
   ("C18", C18Drv.drv),
   ("C05", C05Drv.drv),
-  ("C13", C13Drv.drv)
+  ("C13", C13Drv.drv),
+  ("C12", C12Drv.drv),
+  ("C17", C17Drv.drv)
 ]
 
 abbrev DState := List (String × Val)
